@@ -569,6 +569,20 @@ example := scroll_success_effect Fixes.none exScreen exScreen_wf ⟨true, true, 
 
 /-! ### Sequences of requests -/
 
+/-- The contract of a scroll request follows from the classical in-range contract (offsets smaller than the
+    rectangle) for every version of the source … -/
+theorem inContract_scroll_of_inRange (fx : Fixes) (d : Drv) (vt : VTState) (r : Rect) (dn rt : Int)
+    (hin : ScrollInRange vt r dn rt) (hone : fx.scrollGuard = false → ¬ OneColumnTrigger d.caps vt.cols r dn) :
+    InContract fx d vt (.scroll r dn rt) :=
+  ⟨⟨hin.lines_pos, hin.cols_pos, hin.top, hin.bottom, hin.left, hin.right⟩, fun h => ⟨hin.down, hone h⟩, fun _ => hin.rightw⟩
+
+/-- … and, for the repaired source, from the rectangle being on the screen alone: offsets of ANY size are in range. -/
+theorem inContract_scroll_any_offset (fx : Fixes) (hfx : fx.scrollGuard = true) (hcell : fx.scrollCellGuard = true)
+    (d : Drv) (vt : VTState) (r : Rect) (dn rt : Int) (hon : RectOnScreen vt r) :
+    InContract fx d vt (.scroll r dn rt) :=
+  ⟨hon, fun h => absurd (hfx.symm.trans h) (by decide),
+    fun h => h.elim (fun h => absurd (hfx.symm.trans h) (by decide)) (fun h => absurd (hcell.symm.trans h) (by decide))⟩
+
 /-- One request, in range on a well-formed screen, has exactly its effect and leaves a well-formed screen on which
     the assumptions about the driver-side state still hold. -/
 theorem request_effect (fx : Fixes) (d : Drv) (vt : VTState) (hw : Spec.WF vt) (hcaps : Spec.CapsOK d.caps vt)
@@ -631,7 +645,7 @@ theorem request_effect (fx : Fixes) (d : Drv) (vt : VTState) (hw : Spec.WF vt) (
     rw [clear_effect vt hw]
     exact ⟨rfl, ⟨g, r1, r2, c1, c2, m1, m2, m3, m4⟩, hcaps, hcols, hrv, rfl⟩
   | scroll r dn rt =>
-    obtain ⟨hin, hone⟩ := hq
+    obtain ⟨⟨hl1, hc1, htop, hbot, hleft, hright⟩, hdn, hrt⟩ := hq
     simp only [request, StepOK]
     rw [hcols]
     cases hret : (scrollrect fx d.caps vt.cols r dn rt).1 with
@@ -640,10 +654,12 @@ theorem request_effect (fx : Fixes) (d : Drv) (vt : VTState) (hw : Spec.WF vt) (
       simp only [Bool.false_eq_true, if_false]
       exact ⟨trivial, hw, hcaps, trivial, hrv, trivial⟩
     | true =>
-      have hs := scroll_success_effect fx vt hw d.caps hcaps r dn rt hin hone hret
+      have hs := scroll_effect_general fx vt hw d.caps hcaps r dn rt hl1 hc1 htop hbot hleft hright
+        (fun h => (hdn h).1) hrt (fun h => (hdn h).2) hret
+      have hs' := hs
       obtain ⟨⟨e1, e2, e3, e4, e5, e6, e7, e8, e9, e10⟩, _, s1, s2, s3, s4⟩ := hs
       simp only [if_true]
-      refine ⟨scroll_success_effect fx vt hw d.caps hcaps r dn rt hin hone hret, ?_, ?_, ?_, ?_, e8⟩
+      refine ⟨hs', ?_, ?_, ?_, ?_, e8⟩
       · exact ⟨e10.trans g, by omega, by omega, by omega, by omega, by omega, by omega, by omega, by omega⟩
       · intro h; rw [e7]; exact hcaps h
       · exact e2.symm
@@ -870,10 +886,25 @@ theorem ops_effect (fx : Fixes) (ops : List Op) (d : Drv) (vt : VTState) (hw : S
     and the same rectangle (whose right edge is where the screen used to end) is scrolled again -/
 example : AllOpsInContract Fixes.none (⟨⟨false, false, false⟩, 4, 6, PenCache.empty⟩, cexScreen 4 6)
     [.req (.scroll ⟨0, 0, 4, 6⟩ 1 0), .resize 4 9, .req (.scroll ⟨0, 0, 4, 6⟩ 1 0)] :=
-  ⟨⟨⟨by decide, by decide, by decide, by decide, by decide, by decide, by decide, by decide⟩, fun _ h => absurd h.1 (by decide)⟩,
+  ⟨inContract_scroll_of_inRange _ _ _ _ _ _
+     ⟨by decide, by decide, by decide, by decide, by decide, by decide, by decide, by decide⟩ (fun _ h => absurd h.1 (by decide)),
    ⟨by decide, by decide⟩,
-   ⟨⟨by decide, by decide, by decide, by decide +kernel, by decide, by decide +kernel, by decide, by decide⟩,
-    fun _ h => absurd h.1 (by decide)⟩, trivial⟩
+   inContract_scroll_of_inRange _ _ _ _ _ _
+     ⟨by decide, by decide, by decide, by decide +kernel, by decide, by decide +kernel, by decide, by decide⟩
+     (fun _ h => absurd h.1 (by decide)), trivial⟩
+
+/-- non-vacuity of `ops_effect` / `buffered_history_effect` for the repaired source, where offsets of ANY size are in
+    contract: a rectangle with margins on all four sides scrolled by more than its size in both directions (blanked),
+    the single cell at the origin scrolled horizontally (refused: nothing sent), a one-line rectangle scrolled
+    vertically (refused) -/
+example : AllOpsInContract ⟨true, true, true, true, true⟩
+    (⟨⟨true, false, false⟩, 4, 6, PenCache.empty⟩, { cexScreen 4 6 with declrmm := true })
+    [.req (.scroll ⟨1, 1, 2, 3⟩ 5 (-3)), .req (.scroll ⟨0, 0, 1, 1⟩ 0 2), .req (.scroll ⟨2, 0, 1, 6⟩ 3 0)] :=
+  ⟨inContract_scroll_any_offset _ rfl rfl _ _ _ _ _ ⟨by decide, by decide, by decide, by decide, by decide, by decide⟩,
+   inContract_scroll_any_offset _ rfl rfl _ _ _ _ _
+     ⟨by decide, by decide, by decide, by decide +kernel, by decide, by decide +kernel⟩,
+   inContract_scroll_any_offset _ rfl rfl _ _ _ _ _
+     ⟨by decide, by decide, by decide, by decide +kernel, by decide, by decide +kernel⟩, trivial⟩
 
 /-- after start-up: `CSI m` has been sent and the cache is empty -/
 example : Spec.PenInv PenCache.empty (cexScreen 4 6) := ⟨rfl, fun _ h => by cases h⟩
@@ -949,10 +980,12 @@ theorem cache_stays_ok (caps : Caps) (cache : PenCache) (pen : PenReq) (hc : Cac
 example : AllOpsInContract ⟨false, false, false, true, false⟩ (⟨⟨true, false, false⟩, 4, 6, PenCache.empty⟩, { cexScreen 4 6 with declrmm := true })
     [.setpen ⟨some 3, some true⟩, .req (.scroll ⟨1, 1, 2, 3⟩ 1 0), .suspend, .req (.scroll ⟨1, 1, 2, 3⟩ 1 0),
      .req (.goto 0 0), .req (.erasech 2 .no)] := by
-  refine ⟨by intro v h; cases h; decide, ⟨⟨by decide, by decide, by decide, by decide, by decide, by decide, by decide, by decide⟩,
-    fun _ h => absurd h.2.1 (by decide)⟩, ⟨rfl, by intro v h; cases h; decide⟩, ?_⟩
-  refine ⟨⟨⟨by decide, by decide, by decide, by decide +kernel, by decide, by decide +kernel, by decide, by decide⟩,
-    fun _ h => absurd h.2.1 (by decide)⟩, ⟨Or.inr ⟨by decide, by decide +kernel⟩, Or.inr ⟨by decide, by decide +kernel⟩⟩, ?_⟩
+  refine ⟨by intro v h; cases h; decide, inContract_scroll_of_inRange _ _ _ _ _ _
+    ⟨by decide, by decide, by decide, by decide, by decide, by decide, by decide, by decide⟩
+    (fun _ h => absurd h.2.1 (by decide)), ⟨rfl, by intro v h; cases h; decide⟩, ?_⟩
+  refine ⟨inContract_scroll_of_inRange _ _ _ _ _ _
+    ⟨by decide, by decide, by decide, by decide +kernel, by decide, by decide +kernel, by decide, by decide⟩
+    (fun _ h => absurd h.2.1 (by decide)), ⟨Or.inr ⟨by decide, by decide +kernel⟩, Or.inr ⟨by decide, by decide +kernel⟩⟩, ?_⟩
   exact ⟨⟨by decide +kernel, by decide, by decide +kernel, fun _ _ _ => by decide, fun _ _ h => absurd h (by decide +kernel)⟩, trivial⟩
 
 /-! ### Formatted output: `tickit_term_printf` / `tickit_term_vprintf` -/
